@@ -35,6 +35,7 @@ CONSTANTS Mechs,      \* mechanism names of the pool (MC: configuration lists ar
           MaxPeer,    \* bound on peer items (MC only)
           MaxSteps,   \* bound on mechanism steps per negotiator (MC only)
           Roles,      \* subset of {"client","server"}
+          MaxSess,    \* sessions negotiated, one after the other, with the same feature value (MC only)
           Dev         \* enabled deviations (empty = the property's rules)
 
 None == "none"
@@ -71,10 +72,14 @@ VARIABLES
   permitted,    \* server: "none" | "yes" | "no": verdicts of the permission callback for the
                 \* current negotiator
   authn,        \* the Authn bit has been returned
-  npeer         \* peer items consumed (bounds MC)
+  npeer,        \* peer items consumed (bounds MC)
+  sess          \* number of the session being negotiated with this feature value (1, 2, ...)
 
+(* role and local are the FEATURE VALUE (what xmpp.SASL / xmpp.SASLServer were given: the    *)
+(* mechanisms, credentials and the permission callback); an application builds it once and  *)
+(* negotiates every connection with it.  Everything else belongs to one session.            *)
 vars == <<role, local, adv, pc, selected, stepIdx, mechDone, mechErr, successSeen, permitted,
-          authn, npeer>>
+          authn, npeer, sess>>
 
 -----------------------------------------------------------------------------
 NewNegotiator(m) ==
@@ -94,14 +99,28 @@ Running == pc \notin {"done", "fail"}
 Abort ==
   /\ Running
   /\ pc' = "fail"
-  /\ UNCHANGED <<role, local, adv, selected, stepIdx, mechDone, mechErr, successSeen, permitted,
+  /\ UNCHANGED <<sess, role, local, adv, selected, stepIdx, mechDone, mechErr, successSeen, permitted,
                  authn, npeer>>
 
 (* The Authn mask is returned.                                                      *)
 Finish ==
   /\ pc = "finish"
   /\ authn' = TRUE /\ pc' = "done"
-  /\ UNCHANGED <<role, local, adv, selected, stepIdx, mechDone, mechErr, successSeen, permitted, npeer>>
+  /\ UNCHANGED <<sess, role, local, adv, selected, stepIdx, mechDone, mechErr, successSeen, permitted, npeer>>
+
+(* The session is over (authenticated or failed); the next connection is negotiated *)
+(* with the same feature value.  Nothing of the previous exchange survives: every   *)
+(* session authenticates on its own (A: what the peer of a client advertises).      *)
+NewSession(A) ==
+  /\ ~Running /\ sess' = sess + 1
+  /\ pc' = (IF role = "client" THEN "c_select" ELSE "s_adv")
+  /\ adv' = (IF role = "client" THEN A ELSE <<>>)
+  /\ authn' = FALSE /\ npeer' = 0
+  /\ IF "KeepStateAcrossSessions" \in Dev
+     THEN UNCHANGED <<selected, stepIdx, mechDone, mechErr, successSeen, permitted>>
+     ELSE /\ selected' = None /\ stepIdx' = 0 /\ mechDone' = FALSE /\ mechErr' = FALSE
+          /\ successSeen' = FALSE /\ permitted' = "none"
+  /\ UNCHANGED <<role, local>>
 
 -----------------------------------------------------------------------------
 (* Initiating side (negotiateClient)                                                *)
@@ -112,19 +131,19 @@ CSelect(m) ==
   /\ role = "client" /\ pc = "c_select"
   /\ m \in ToSet(local) \cap ToSet(adv)
   /\ selected' = m /\ pc' = "c_start"
-  /\ UNCHANGED <<role, local, adv, stepIdx, mechDone, mechErr, successSeen, permitted, authn, npeer>>
+  /\ UNCHANGED <<sess, role, local, adv, stepIdx, mechDone, mechErr, successSeen, permitted, authn, npeer>>
 
 CStart(more, err) ==
   /\ role = "client" /\ pc = "c_start"
   /\ Step(more, err)
   /\ pc' = (IF err THEN "fail" ELSE "c_auth")
-  /\ UNCHANGED <<role, local, adv, selected, successSeen, permitted, authn, npeer>>
+  /\ UNCHANGED <<sess, role, local, adv, selected, successSeen, permitted, authn, npeer>>
 
 (* <auth mechanism=selected/> is written                                            *)
 CAuth ==
   /\ role = "client" /\ pc = "c_auth"
   /\ pc' = (IF mechDone THEN "c_final" ELSE "c_loop")
-  /\ UNCHANGED <<role, local, adv, selected, stepIdx, mechDone, mechErr, successSeen, permitted,
+  /\ UNCHANGED <<sess, role, local, adv, selected, stepIdx, mechDone, mechErr, successSeen, permitted,
                  authn, npeer>>
 
 (* The mechanism is complete: only <success/> can end the exchange well.  Whether a *)
@@ -136,7 +155,7 @@ CRecvFinal(x) ==
      THEN /\ successSeen' = TRUE
           /\ pc' \in (IF x.p = "bad" THEN {"finish", "fail"} ELSE {"finish"})
      ELSE successSeen' = successSeen /\ pc' = "fail"
-  /\ UNCHANGED <<role, local, adv, selected, stepIdx, mechDone, mechErr, permitted, authn>>
+  /\ UNCHANGED <<sess, role, local, adv, selected, stepIdx, mechDone, mechErr, permitted, authn>>
 
 (* The mechanism wants more: <challenge/> and <success/> payloads are handed to it. *)
 CRecvLoop(x) ==
@@ -146,7 +165,7 @@ CRecvLoop(x) ==
      THEN /\ successSeen' = (successSeen \/ x.k = "success")
           /\ pc' \in (IF x.p = "bad" THEN {"c_step", "fail"} ELSE {"c_step"})
      ELSE successSeen' = successSeen /\ pc' = "fail"
-  /\ UNCHANGED <<role, local, adv, selected, stepIdx, mechDone, mechErr, permitted, authn>>
+  /\ UNCHANGED <<sess, role, local, adv, selected, stepIdx, mechDone, mechErr, permitted, authn>>
 
 (* After a step: an error fails; more => next round; done => authenticated only if  *)
 (* the peer has signalled success, otherwise its <success/> is still to come.  The  *)
@@ -159,7 +178,7 @@ CStep(more, err) ==
               ELSE IF successSeen THEN {"finish", "c_final"}
               ELSE IF "ExitWithoutSuccess" \in Dev THEN {"finish"}
               ELSE {"c_final"})
-  /\ UNCHANGED <<role, local, adv, selected, successSeen, permitted, authn, npeer>>
+  /\ UNCHANGED <<sess, role, local, adv, selected, successSeen, permitted, authn, npeer>>
 
 -----------------------------------------------------------------------------
 (* Receiving side (negotiateServer)                                                 *)
@@ -167,7 +186,7 @@ CStep(more, err) ==
 SAdvertise(L) ==
   /\ role = "server" /\ pc = "s_adv"
   /\ adv' = L /\ pc' = "s_read"
-  /\ UNCHANGED <<role, local, selected, stepIdx, mechDone, mechErr, successSeen, permitted,
+  /\ UNCHANGED <<sess, role, local, selected, stepIdx, mechDone, mechErr, successSeen, permitted,
                  authn, npeer>>
 
 StepOrFail(x) == IF x.p = "bad" THEN {"s_step", "fail"} ELSE {"s_step"}
@@ -190,13 +209,13 @@ SRecv(x) ==
             pc' = "fail" /\ UNCHANGED <<selected, stepIdx, mechDone, mechErr, permitted>>
        [] OTHER ->
             pc' = "s_read" /\ UNCHANGED <<selected, stepIdx, mechDone, mechErr, permitted>>
-  /\ UNCHANGED <<role, local, adv, successSeen, authn>>
+  /\ UNCHANGED <<sess, role, local, adv, successSeen, authn>>
 
 (* The mechanism consults the application's permission callback during a step.     *)
 SPerm(v) ==
   /\ role = "server" /\ pc = "s_step"
   /\ permitted' = (IF v /\ permitted # "no" THEN "yes" ELSE "no")
-  /\ UNCHANGED <<role, local, adv, pc, selected, stepIdx, mechDone, mechErr, successSeen, authn, npeer>>
+  /\ UNCHANGED <<sess, role, local, adv, pc, selected, stepIdx, mechDone, mechErr, successSeen, authn, npeer>>
 
 (* After a step: an error ends this attempt; more => <challenge/> and next round;   *)
 (* done => authenticated only if the callback accepted the credentials.             *)
@@ -207,7 +226,7 @@ SStep(more, err) ==
             ELSE IF more THEN "s_read"
             ELSE IF permitted = "yes" \/ "SkipPermission" \in Dev THEN "finish"
             ELSE "fail")
-  /\ UNCHANGED <<role, local, adv, selected, successSeen, permitted, authn, npeer>>
+  /\ UNCHANGED <<sess, role, local, adv, selected, successSeen, permitted, authn, npeer>>
 
 -----------------------------------------------------------------------------
 (* Bounded environment of the design check                                          *)
@@ -225,7 +244,7 @@ Init ==
      THEN adv \in OrderedSublists(Mechs \cup {Unk}) /\ pc = "c_select"
      ELSE adv = <<>> /\ pc = "s_adv"
   /\ selected = None /\ stepIdx = 0 /\ mechDone = FALSE /\ mechErr = FALSE
-  /\ successSeen = FALSE /\ permitted = "none" /\ authn = FALSE /\ npeer = 0
+  /\ successSeen = FALSE /\ permitted = "none" /\ authn = FALSE /\ npeer = 0 /\ sess = 1
 
 StepChoice(A(_, _)) ==
   /\ stepIdx < MaxSteps
@@ -239,6 +258,7 @@ Next ==
   \/ \E L \in OrderedSublists(Mechs) : SAdvertise(L)
   \/ npeer < MaxPeer /\ \E x \in ServerAlphabetFor(Mechs \cup {Unk, ""}) : SRecv(x)
   \/ \E v \in BOOLEAN : SPerm(v)
+  \/ sess < MaxSess /\ \E A \in (IF role = "client" THEN OrderedSublists(Mechs \cup {Unk}) ELSE {<<>>}) : NewSession(A)
 
 Spec == Init /\ [][Next]_vars
 
@@ -252,5 +272,13 @@ C03_MechanismMutual == selected # None => selected \in ToSet(local) \cap ToSet(a
 C03_StepOnlySelected == [][stepIdx' > stepIdx => selected' # None]_vars
 (* ... and never on a negotiator that has returned an error (stepIdx' = 0: a new one) *)
 C03_NoStepAfterError == [][mechErr => stepIdx' = stepIdx \/ stepIdx' = 0]_vars
-C03_AuthnStable == [][authn => authn']_vars
+(* (within a session) *)
+C03_AuthnStable == [][authn /\ sess' = sess => authn']_vars
+(* a session starts from nothing: no mechanism selected, no step made, no verdict, no       *)
+(* <success/> seen, not authenticated - whatever happened in the sessions negotiated with   *)
+(* this feature value before.  Together with the invariants above (which hold in every      *)
+(* session): every session is authenticated only by its own completed, accepted exchange.   *)
+C03_SessionFresh ==
+  [][sess' # sess => /\ selected' = None /\ stepIdx' = 0 /\ ~mechDone' /\ ~mechErr'
+                     /\ ~successSeen' /\ permitted' = "none" /\ ~authn']_vars
 =============================================================================
